@@ -172,56 +172,54 @@ CO_ERR CONmtHbConsActivate(CO_HBCONS *hbc, uint16_t time, uint8_t nodeid)
     CO_HBCONS  *found = 0;
 
     nmt = &(hbc->Node->Nmt);
-    prev = 0;
-    act  = nmt->HbCons;
+
+    /* is the given node already monitored by an active consumer? */
+    act = nmt->HbCons;
     while (act != 0) {
         if (act->NodeId == nodeid) {
             found = act;
             break;
         }
-        prev = act;
-        act  = act->Next;
+        act = act->Next;
+    }
+    if ((found != 0) && (time > 0)) {
+        return (CO_ERR_OBJ_INCOMPATIBLE);
     }
 
-    if (found != 0) {
-        if (time > 0) {
-            result = CO_ERR_OBJ_INCOMPATIBLE;
-        } else {
+    /* deactivate the given consumer, if it is active */
+    prev = 0;
+    act  = nmt->HbCons;
+    while (act != 0) {
+        if (act == hbc) {
+            if (prev == 0) {
+                nmt->HbCons = hbc->Next;
+            } else {
+                prev->Next  = hbc->Next;
+            }
             if (hbc->Tmr >= 0) {
                 err = COTmrDelete(&nmt->Node->Tmr, hbc->Tmr);
                 if (err < 0) {
                     result = CO_ERR_TMR_DELETE;
                 }
             }
-            hbc->Time   = time;
-            hbc->NodeId = nodeid;
-            hbc->Tmr    = -1;
-            hbc->Event  = 0;
-            hbc->State  = CO_INVALID;
-            hbc->Node   = nmt->Node;
-            if (prev == 0) {
-                nmt->HbCons = hbc->Next;
-            } else {
-                prev->Next  = hbc->Next;
-            }
-            hbc->Next   = 0;
+            break;
         }
-    } else {
-        hbc->Time   = time;
-        hbc->NodeId = nodeid;
-        hbc->Tmr    = -1;
-        hbc->Event  = 0;
-        hbc->State  = CO_INVALID;
-        hbc->Node   = nmt->Node;
-
-        if (time > 0) {
-            hbc->Next   = nmt->HbCons;
-            nmt->HbCons = hbc;
-        } else {
-            hbc->Next   = 0;
-        }
+        prev = act;
+        act  = act->Next;
     }
 
+    hbc->Time   = time;
+    hbc->NodeId = nodeid;
+    hbc->Tmr    = -1;
+    hbc->Event  = 0;
+    hbc->State  = CO_INVALID;
+    hbc->Node   = nmt->Node;
+    if (time > 0) {
+        hbc->Next   = nmt->HbCons;
+        nmt->HbCons = hbc;
+    } else {
+        hbc->Next   = 0;
+    }
     return (result);
 }
 
